@@ -28,6 +28,7 @@ TNext ==
     \/ Is("run_begin") /\ P_RunBegin
     \/ Is("run_end") /\ P_RunEnd(E.res, E.e, E.se, E.polls)
     \/ Is("look") /\ P_Look(E.e, E.se, E.polls)
+    \/ Is("stale") /\ P_Stale(E.h)
     \/ /\ l <= Len(Rec) /\ Rec[l].ev \in {"turn", "turn_end"}
        /\ l' = l + 1 /\ UNCHANGED pvars
 
